@@ -180,12 +180,16 @@ static void explore(const node *n0, int depth)
 static void set_counter(unsigned char *nonce, uint32_t c) { nonce[0] = (unsigned char) c; nonce[1] = (unsigned char) (c >> 8); nonce[2] = (unsigned char) (c >> 16); nonce[3] = (unsigned char) (c >> 24); }
 
 /* root for start counter index sc (0: fresh, 1..3: 2^32 - sc) and first transition index ft (work partition) */
-static node ROOT[4];
+#define NROOT 8
+static node ROOT[NROOT];
+/* start counters: fresh (1), the three values before the 32-bit wrap, and values just before each byte of the counter carries
+ * (the automatic rekey must happen at the wrap to zero only, not when some of the bytes are zero) */
+static const uint32_t START_CTR[NROOT] = { 1, 0xffffffffu, 0xfffffffeu, 0xfffffffdu, 0x000000feu, 0x0000fffeu, 0x00fffffeu, 0x7ffffffeu };
 static void make_roots(void)
 {
     int sc; unsigned char hdr[24], want_hdr[24], k2[32]; sstate s2; ull ol; int shape;
     vf_pat(KEY, 32, PAT_R1, 501);
-    for (sc = 0; sc < 4; sc++) {
+    for (sc = 0; sc < NROOT; sc++) {
         node *n = &ROOT[sc]; memset(n, 0, sizeof *n); n->last_accepted = -1;
         rng_fill = 0x11; rng_buf(want_hdr, 24);
         crypto_secretstream_xchacha20poly1305_init_push(&n->push, hdr, KEY);
@@ -194,7 +198,7 @@ static void make_roots(void)
         if (memcmp(n->push.k, n->mpush.k, 32) || memcmp(n->push.nonce, n->mpush.nonce, 12)) vf_fail("secretstream-init/state", "init_push state differs from HChaCha20(k, header[0:16]) / counter 1 / header[16:24]");
         crypto_secretstream_xchacha20poly1305_init_pull(&n->pull, hdr, KEY);
         if (memcmp(&n->pull, &n->push, sizeof n->pull)) vf_fail("secretstream-init/pull", "init_pull state differs from init_push state");
-        if (sc) { uint32_t c = 0u - (uint32_t) sc; set_counter(n->push.nonce, c); set_counter(n->pull.nonce, c); set_counter(n->mpush.nonce, c); snprintf(n->hist, sizeof n->hist, "C-%d.", sc); }
+        if (sc) { uint32_t c = START_CTR[sc]; set_counter(n->push.nonce, c); set_counter(n->pull.nonce, c); set_counter(n->mpush.nonce, c); if (sc < 4) snprintf(n->hist, sizeof n->hist, "C-%d.", sc); else snprintf(n->hist, sizeof n->hist, "C=%x.", (unsigned) c); }
     }
     /* foreign chunks */
     for (shape = 0; shape < 2; shape++) {
@@ -257,7 +261,7 @@ int main(void)
     if (sodium_init() < 0) return 2;
     make_roots();
     vf_stat("depth_bound", (unsigned long long) DEPTH);
-    vf_parallel(16, 0, 44, do_root, fin);
+    vf_parallel(16, 0, 11 * NROOT, do_root, fin);
     vf_parallel(16, 0, 301, do_len, fin);
     vf_sample("start counter 2^32-2: P01.P21.L.L -> second chunk carries TAG_REKEY while the counter wraps; puller must follow");
     vf_sample("P00.P11.pull(skip-ahead) -> rejected, puller state bit-identical, then pull(next) accepted");
